@@ -25,6 +25,7 @@ import (
 
 	"github.com/thought-machine/please/src/core"
 	"github.com/thought-machine/please/src/fs"
+	"github.com/thought-machine/please/src/verifhook"
 )
 
 const hashLength = sha1.Size
@@ -354,10 +355,12 @@ func writeRuleHash(state *core.BuildState, target *core.BuildTarget) error {
 		return fs.RecordAttrFile(filepath.Join(target.OutDir(), target.Label.Name), hash)
 	}
 	for _, output := range outputs {
+		verifhook.Point("incrementality.writeRuleHash.output")
 		if err := fs.RecordAttr(output, hash, xattrName, state.XattrsSupported); err != nil {
 			return err
 		}
 	}
+	verifhook.Point("incrementality.writeRuleHash.done")
 	if fs.FileExists(targetBuildMetadataFileName(target)) {
 		return fs.RecordAttr(targetBuildMetadataFileName(target), hash, xattrName, state.XattrsSupported)
 	}
@@ -396,10 +399,12 @@ func StoreTargetMetadata(target *core.BuildTarget, md *core.BuildMetadata) error
 		return fmt.Errorf("Failed to create directory for build metadata file for %s: %w", target, err)
 	}
 
+	verifhook.Point("incrementality.storeMetadata.removed")
 	mdFile, err := os.Create(filename)
 	if err != nil {
 		return fmt.Errorf("failed to create new %s build metadata file: %w", target.Label, err)
 	}
+	verifhook.Point("incrementality.storeMetadata.created")
 
 	defer mdFile.Close()
 
